@@ -176,8 +176,15 @@ func (ev *astEnv) lookupVar(obj types.Object) Value {
 	e := ev.e
 	if ev.loop != nil && ev.loop.rangeKey == obj && ev.f != nil {
 		// at the header of `for i := range ...` the key denotes the number of completed iterations
-		if pv, ok := ev.f.env[ev.loop.rangeIdx].(*PtrV); ok {
-			return e.c.Add(e.load(ev.s, pv.Ref).(*Term), BVConst(1, 64))
+		if ev.loop.rangeIdx != nil {
+			if pv, ok := ev.f.env[ev.loop.rangeIdx].(*PtrV); ok {
+				return e.c.Add(e.load(ev.s, pv.Ref).(*Term), BVConst(1, 64))
+			}
+		}
+		if ev.loop.rangeIter != nil {
+			if it, ok := ev.f.env[ev.loop.rangeIter].(*rangeIter); ok && it.obj != nil {
+				return e.load(ev.s, &Ref{Obj: it.obj})
+			}
 		}
 	}
 	switch o := obj.(type) {
@@ -687,6 +694,16 @@ func (ev *astEnv) call(n *ast.CallExpr) Value {
 			panic(unsupported("result index out of range in contract"))
 		}
 		return ev.results[k]
+	case "verif_loopold":
+		// value at the moment the loop whose invariant is being evaluated was entered
+		if ev.loop == nil || ev.f == nil || ev.f.loopEntry == nil || ev.f.loopEntry[ev.loop] == nil {
+			panic(unsupported("loopold outside a loop invariant"))
+		}
+		snap := ev.f.loopEntry[ev.loop]
+		sub := &astEnv{e: e, s: snap, f: ev.f, vars: ev.vars, info: ev.info, bound: ev.bound, loop: ev.loop, old: ev.old}
+		snap.pure++
+		defer func() { snap.pure-- }()
+		return sub.eval(n.Args[0])
 	case "verif_arg":
 		k := 0
 		if len(n.Args) > 0 {
@@ -704,6 +721,12 @@ func (ev *astEnv) call(n *ast.CallExpr) Value {
 		if ev.loop != nil && ev.loop.rangeIdx != nil && ev.f != nil {
 			if pv, ok := ev.f.env[ev.loop.rangeIdx].(*PtrV); ok {
 				return c.Add(e.load(ev.s, pv.Ref).(*Term), BVConst(1, 64))
+			}
+		}
+		if ev.loop != nil && ev.loop.rangeIter != nil && ev.f != nil {
+			// range over a string: the byte position of the next rune
+			if it, ok := ev.f.env[ev.loop.rangeIter].(*rangeIter); ok && it.obj != nil {
+				return e.load(ev.s, &Ref{Obj: it.obj})
 			}
 		}
 		panic(unsupported("rangeidx outside the invariant of a range loop"))
